@@ -61,3 +61,19 @@ def parse_rule_ok(text):
     kw['args'], kw['arg_paths'] = [], []
     a = b = None
     return kw, a, b
+
+
+_TEMPLATE = {'sender': None, 'args': [], 'arg_paths': []}
+
+
+def parse_from_template(text):
+    # P5: dict(T) copies the dict, not the lists in it
+    kw = dict(_TEMPLATE)
+    kw['args'].append((0, text))
+    return kw
+
+
+def parse_from_template_ok(text):
+    kw = dict(_TEMPLATE)
+    kw['args'] = [(0, text)]
+    return kw
